@@ -17,12 +17,15 @@ ErrorsOf(ds) == {i \in DOMAIN ds : ds[i].sev = "error"}
 \* identification of names ignoring case as the harness computed it (unicase), for recorded models
 FoldObs(r, n) == IF "folds" \in DOMAIN r /\ n \in DOMAIN r.folds THEN r.folds[n] ELSE Fold(n)
 
-\* multiset inclusion of predicted diagnostics (severity, stage, class) in the observed ones
+\* The class of a diagnostic is read off its message text by the recorder (a table of prefixes).  Wording is no part of any
+\* property: the clauses compare severity and stage (and labels); the classes are compared as drift (ClassesAsPredicted), where
+\* a message the table does not know ("Other") counts for any class.
 Count(ds, d) == Cardinality({i \in DOMAIN ds : ds[i].sev = d.sev /\ ds[i].stage = d.stage /\ ds[i].class = d.class})
-\* diagnostics are told apart by their message text (harness table); a message the table does not know ("Other") may be a
-\* reworded one: it counts for any class of its severity and stage, so that rewording a message is not an alarm
 CountObs(ds, d) == Cardinality({i \in DOMAIN ds : ds[i].sev = d.sev /\ ds[i].stage = d.stage /\ ds[i].class \in {d.class, "Other"}})
-DiagsIncluded(p, o) == \A i \in DOMAIN p : CountObs(o, p[i]) >= Count(p, p[i])
+ClassesIncluded(p, o) == \A i \in DOMAIN p : CountObs(o, p[i]) >= Count(p, p[i])
+CountSS(ds, sev, stage) == Cardinality({i \in DOMAIN ds : ds[i].sev = sev /\ ds[i].stage = stage})
+\* multiset inclusion of the predicted diagnostics (severity, stage) in the observed ones
+DiagsIncluded(p, o) == \A sev \in {"error", "warning"}, stage \in {"parse", "analysis"} : CountSS(o, sev, stage) >= CountSS(p, sev, stage)
 Touches(lbl, sp) == lbl.s <= sp.e /\ sp.s <= lbl.e
 
 SetModel(r) == [r.obs.model EXCEPT !.igr = SetMods(@), !.cw = SetMods(@)]
@@ -53,28 +56,30 @@ Holds(c, r) ==
     [] c = "ValidSameFoldedName"   -> (HasModel(r) /\ r.obs.valid) => ValidSameFoldedName(r.obs.model, LAMBDA n : FoldObs(r, n))
     [] c = "CollectorSteps"       -> (r.obs.st = "ok" /\ "snaps" \in DOMAIN r.obs) => CollectorSteps(r.obs.snaps)
     \* ---- C07: diagnostics
-    [] c = "NoSpuriousDiagnostics" -> (WF(r) /\ r.obs.st = "ok") => \A i \in DOMAIN r.obs.diags :
-                                         \/ r.obs.diags[i].class = "DeprecatedMetadata"
-                                         \* the notice with another wording: a warning of unknown class where the notice is predicted
-                                         \/ /\ r.obs.diags[i].class = "Other" /\ r.obs.diags[i].sev = "warning"
-                                            /\ \E j \in DOMAIN r.pred.diags : r.pred.diags[j].class = "DeprecatedMetadata"
+    \* a well-formed document: no error, and no more warnings than the deprecation notices the specification predicts
+    \* (all predicted diagnostics of a well-formed document are that notice)
+    [] c = "NoSpuriousDiagnostics" -> (WF(r) /\ r.obs.st = "ok") =>
+                                         /\ ErrorsOf(r.obs.diags) = {}
+                                         /\ \A stage \in {"parse", "analysis"} : CountSS(r.obs.diags, "warning", stage) <= CountSS(r.pred.diags, "warning", stage)
     [] c = "ValidIffOutputAndNoError" -> r.obs.st = "ok" => (r.obs.valid <=> (r.obs.has_output /\ ErrorsOf(r.obs.diags) = {}))
     [] c = "ParseErrorSuppresses"  -> (r.obs.st = "ok" /\ \E i \in ErrorsOf(r.obs.diags) : r.obs.diags[i].stage = "parse")
                                          => (~r.obs.has_output /\ \A i \in DOMAIN r.obs.diags : r.obs.diags[i].stage = "parse")
     [] c = "AnalysisErrorKeepsOutput" -> (r.obs.st = "ok" /\ \A i \in ErrorsOf(r.obs.diags) : r.obs.diags[i].stage = "analysis") => r.obs.has_output
-    [] c = "PredictedDiagnostics"  -> (HasPred(r) /\ r.obs.st = "ok" /\ ~r.pred.failed) => DiagsIncluded(r.pred.diags, r.obs.diags)
+    \* (what else is reported once an invalid construct was injected depends on how the parser recovers, which no property fixes:
+    \* those documents are judged by DefectReported and the validity clauses; their full list is drift, ClassesAsPredicted)
+    [] c = "PredictedDiagnostics"  -> (HasPred(r) /\ r.obs.st = "ok" /\ ~r.pred.failed /\ "defect" \notin DOMAIN r) => DiagsIncluded(r.pred.diags, r.obs.diags)
     [] c = "DefectReported"        -> (HasPred(r) /\ "defect" \in DOMAIN r /\ r.obs.st = "ok") =>
                                          \E i \in DOMAIN r.obs.diags :
                                             /\ r.obs.diags[i].sev = r.defect.sev /\ r.obs.diags[i].stage = r.defect.stage
-                                            /\ r.obs.diags[i].class \in {r.defect.class, "Other"}
                                             /\ r.obs.diags[i].labels # <<>> /\ Touches(r.obs.diags[i].labels[1], r.defect)
     [] c = "ValidityAsPredicted"   -> (HasPred(r) /\ r.obs.st = "ok") => r.obs.valid = r.pred.valid
 \* model agreement on documents that are not well-formed is conformance detail (drift), not a clause
-Details == {"ModelAsPredicted"}
+Details == {"ModelAsPredicted", "ClassesAsPredicted"}
 Agrees(d, r) ==
   CASE d = "ModelAsPredicted" -> (HasPred(r) /\ HasModel(r) /\ ~r.pred.wellformed /\ ~r.pred.failed) =>
                                     [r.obs.model EXCEPT !.igr = SetMods(@), !.cw = SetMods(@)]
                                     = [r.pred.model EXCEPT !.igr = SetMods(@), !.cw = SetMods(@)]
+    [] d = "ClassesAsPredicted" -> (HasPred(r) /\ r.obs.st = "ok" /\ ~r.pred.failed) => ClassesIncluded(r.pred.diags, r.obs.diags)
 Failed(r) == {c \in Clauses : ~Holds(c, r)}
 Drift(r)  == {d \in Details : ~Agrees(d, r)}
 TInit == l = 1
